@@ -54,6 +54,11 @@ def tm_inverse(east, north, hemisphere, cm, A, b, k0, FE, FN):
 def newton_residual(t, t1, ecc1):
     sigma = sinh(ecc1 * atanh(ecc1 * t / sqrt(1 + t ** 2)))
     return t * sqrt(1 + sigma ** 2) - sigma * sqrt(1 + t ** 2) - t1
+
+def newton_derivative(t, ecc1, ecc1sq):
+    sigma = sinh(ecc1 * atanh(ecc1 * t / sqrt(1 + t ** 2)))
+    return ((sqrt(1 + sigma ** 2) * sqrt(1 + t ** 2) - sigma * t)
+            * (((1 - ecc1sq) * sqrt(1 + t ** 2)) / (1 + (1 - ecc1sq) * t ** 2)))
 '''
 
 
@@ -227,6 +232,16 @@ def standalone_rules(repo, rep, beta):
             ev2._stack.pop()
         check_equal(rep, 'R-SIBLING', base + 'grid2geo::residual', where(f, f.node), res_code, res_ref,
                     'stand-alone Newton residual = forward conformal-latitude map minus target')
+        clo2 = fenv.get('f1tn')
+        if isinstance(clo2, Closure):
+            ev2._stack.append(f)
+            try:
+                der_code = ev2.apply(clo2, [t], {}, f.node, fenv)
+            finally:
+                ev2._stack.pop()
+            der_ref = orc.call('newton_derivative', t=t, ecc1=Rat.sym('ecc1'), ecc1sq=Rat.sym('ecc1') * Rat.sym('ecc1'))
+            check_equal(rep, 'R-SIBLING', base + 'grid2geo::derivative', where(f, f.node), der_code, der_ref,
+                        'stand-alone Newton derivative = closed-form derivative of the residual')
     else:
         rep.undecided('R-SIBLING', base + 'grid2geo::residual', where(f, f.node), 'no nested residual function found')
 
@@ -241,7 +256,7 @@ def find_newton(func):
                         and isinstance(st.value.left, ast.Name) and st.value.left.id == st.targets[0].id:
                     rhs = st.value.right
                     if isinstance(rhs, ast.BinOp) and isinstance(rhs.op, ast.Div) and isinstance(rhs.left, ast.Call):
-                        return n, st.targets[0].id, rhs.left
+                        return n, st.targets[0].id, rhs.left, rhs.right
     return None
 
 
@@ -291,7 +306,7 @@ def formula_rules(repo, rep):
         rep.undecided('R-SIBLING', key, w, 'no Newton update of the form v = v - f(v)/g(v) inside a while loop')
         tsym = None
     else:
-        loop_node, var, numer = nw
+        loop_node, var, numer, denom = nw
         summ = [s for s in loops if s.node is loop_node]
         if not summ:
             rep.undecided('R-SIBLING', key, w, 'Newton loop was not summarised')
@@ -307,6 +322,16 @@ def formula_rules(repo, rep):
             res_ref = orc.call('newton_residual', t=tsym, t1=rt1, ecc1=E.fields['ecc1'])
             check_equal(rep, 'R-SIBLING', key, where(f, loop_node), res_code, res_ref,
                         'the Newton iteration solves the forward conformal-latitude equation tau\'(t) = t1')
+            # the derivative decides whether the capped iteration converges: it must be the derivative of that residual
+            # (Karney-Krueger closed form); a wrong derivative stalls the iteration at high latitude before the cap
+            ev._stack.append(f)
+            try:
+                der_code = ev.eval(denom, summ.env_pre, f)
+            finally:
+                ev._stack.pop()
+            der_ref = orc.call('newton_derivative', t=tsym, ecc1=E.fields['ecc1'], ecc1sq=E.fields['ecc1sq'])
+            check_equal(rep, 'R-FORMULA', base + 'newton-derivative', where(f, loop_node), der_code, der_ref,
+                        'Newton derivative = (sqrt(1+s^2) sqrt(1+t^2) - s t) (1-e^2) sqrt(1+t^2) / (1 + (1-e^2) t^2)')
             # the returned latitude is hemisign * degrees(atan(t_final))
             lat_ref = rsign * alg.degrees(alg.atan(tsym)) if isinstance(rsign, Rat) else None
             if lat_ref is not None:
